@@ -3,7 +3,7 @@ import ast
 
 from . import scopes
 from ..core.report import DOMAIN_D
-from ..rules import roles, loops, eager, degree, frame, mirror, safediv, runmin, onsegment, sides, unpack
+from ..rules import roles, loops, eager, degree, frame, mirror, safediv, runmin, onsegment, sides, unpack, purity, ericson, misc2
 from ..engines.signs import Signs, NONNEG, ZERO
 from .common import e1, e2
 
@@ -48,7 +48,7 @@ def run(idx, rep, tier):
     runmin.r_runmin(idx, rep, [x.name for x in idx.lib_modules() if x.name.startswith("distance3d.distance")], floor=6)
     onsegment.r_onsegment(idx, rep, [x.name for x in idx.lib_modules() if x.name.startswith("distance3d.distance")], floor=4)
     onsegment.r_clipsym(idx, rep, [x.name for x in idx.lib_modules() if x.name.startswith("distance3d.distance")], floor=4)
-    sides.r_sides(idx, rep, [x.name for x in idx.lib_modules() if x.name.startswith("distance3d.distance")], floor=20, assignments=False)
+    sides.r_sides(idx, rep, [x.name for x in idx.lib_modules() if x.name.startswith("distance3d.distance")], floor=25)
     mirror.r_mirror(idx, rep)
     mirror.r_casedispatch(idx, rep)
     mirror.r_tournament(idx, rep)
@@ -66,4 +66,8 @@ def run(idx, rep, tier):
     # inhomogeneities are C11/C12 matter (the fixed line_to_circle error kept its points on the primitives)
     dg, _ = degree.run_engine(idx, mods + ["distance3d.geometry", "distance3d.utils"], None)
     degree.r_return_degrees(idx, rep, dg)
+    purity.r_pureargs(idx, rep, [x.name for x in idx.lib_modules() if x.name.startswith("distance3d.distance")] + ["distance3d.utils", "distance3d.geometry"], floor=30)
+    onsegment.r_halfsize(idx, rep, [x.name for x in idx.lib_modules() if x.name.startswith("distance3d.distance")], floor=5)
+    ericson.r_ericson(idx, rep)
+    misc2.r_dupcond(idx, rep, [m.name for m in idx.lib_modules()], floor=3)
     unpack.r_unpack(idx, rep, floor=45)
